@@ -35,10 +35,31 @@ RETURNING = " RETURNING id, a, b"
 DML = ("insert", "update", "delete", "truncate", "upsert")
 
 
+def bad_sql(b, i, table="t"):
+    """Relational.tla BadKinds -> a statement that is wrong in itself; i is an id no row has"""
+    return {
+        "unknown_table": "INSERT INTO nosuch VALUES (%d, NULL, 0)" % i,
+        "unknown_column_in_list": "INSERT INTO %s (id, zz, b) VALUES (%d, NULL, 0)" % (table, i),
+        "unknown_column_in_set": "UPDATE %s SET zz = 1" % table,
+        "unknown_column_in_where": "DELETE FROM %s WHERE zz = 1" % table,
+        "too_many_values": "INSERT INTO %s VALUES (%d, NULL, 0, 7)" % (table, i),
+        "text_into_int": "INSERT INTO %s VALUES (%d, NULL, 'abc')" % (table, i),
+        "second_row_text_into_int": "INSERT INTO %s VALUES (%d, NULL, 0), (%d, NULL, 'abc')" % (table, i, i + 10),
+        "second_row_too_many_values": "INSERT INTO %s VALUES (%d, NULL, 0), (%d, NULL, 0, 7)" % (table, i, i + 10),
+        "second_row_unknown_function": "INSERT INTO %s VALUES (%d, NULL, 0), (%d, NULL, nosuchfn(1))" % (table, i, i + 10),
+        "update_all_text_into_int": "UPDATE %s SET b = 'abc'" % table,
+        "update_all_unknown_function": "UPDATE %s SET b = nosuchfn(b)" % table,
+        "delete_where_unknown_function": "DELETE FROM %s WHERE nosuchfn(id) = 1" % table,
+        "not_sql": "INSERT INTO %s VALUES (%d, NULL, 0) VALUES" % (table, i),
+    }[b]
+
+
 def opname(op):
     """statement kind as it appears in finding signatures"""
     if op["k"] == "update":
         return "update(%s)" % op.get("c", "")
+    if op["k"] == "bad":
+        return "bad(%s)" % op["b"]
     if op["k"] == "upsert":
         return "upsert(nothing)" if op["act"] == "nothing" else "upsert(on_%s_set_%s)" % (op["tgt"], op["c"])
     return op["k"]
@@ -58,6 +79,8 @@ def op_sql(op, table="t", returning=False):
     if k == "upsert":
         tail = "ON CONFLICT DO NOTHING" if op["act"] == "nothing" else "ON CONFLICT (%s) DO UPDATE SET %s = %s" % (op["tgt"], op["c"], lit(op["v"]))
         return [{"k": "exec", "sql": "INSERT INTO %s VALUES (%s) %s%s" % (table, ", ".join(lit(x) for x in op["row"]), tail, ret)}]
+    if k == "bad":
+        return [{"k": "exec", "sql": bad_sql(op["b"], op["id"], table)}]
     if k == "truncate":
         return [{"k": "exec", "sql": "TRUNCATE TABLE %s" % table}]
     if k == "reopen":
